@@ -1023,7 +1023,15 @@ class Engine:
         gen = n.generators[0]
         res = []
         for st1, it in s.ev(gen.iter, st, out):
-            if isinstance(it, (VCList, VTuple)):
+            if isinstance(it, VTuple) and it.items and isinstance(it.items[0], VConst) and isinstance(it.items[0].obj, tuple) \
+                    and it.items[0].obj[:2] == ("iter", "enumerate"):
+                a_, kw_ = it.items[1].items, it.items[2].d
+                if isinstance(a_[0], (VCList, VTuple)):
+                    # enumerate over a concrete sequence: a concrete list of (index, element) pairs
+                    st_ = a_[1] if len(a_) > 1 else kw_.get("start", VInt(0))
+                    it = VCList([VTuple([VInt(st_.t + i_), x_]) for i_, x_ in enumerate(a_[0].items)])
+            if isinstance(it, (VCList, VTuple)) and not (it.items and isinstance(it.items[0], VConst) and isinstance(it.items[0].obj, tuple)
+                                                         and it.items[0].obj[:1] == ("iter",)):
                 # concrete: unroll
                 cur = [(st1, [])]
                 for x in it.items:
@@ -1063,6 +1071,7 @@ class Engine:
             st2 = st1.fork()
             heap_before = dict(st2.heap)
             saved = s.bind_tmp(gen.target, elem_at(k), st2)
+            st2.assume(z3.And(0 <= k, k < n_t))        # the element is only ever evaluated for indices of the sequence
             mark = len(st2.pc)
             sub_out = []
             r = s.ev(n.elt, st2, sub_out)
@@ -1082,7 +1091,7 @@ class Engine:
                     raise OutOfSubset("comprehension element writes the heap")
             deltas = [list(st_i.pc[mark:]) for st_i, _v in r]
             st3 = r[0][0]
-            del st3.pc[mark:]
+            del st3.pc[mark - 1:]                      # drop the path condition of the element and the index range
             s.unbind_tmp(saved, st3)
             if len(r) == 1:
                 v = r[0][1]
@@ -1115,6 +1124,13 @@ class Engine:
 
     def seq_view(s, it, st):
         """(length term, index -> Value) of an iterable value"""
+        if isinstance(it, VTuple) and it.items and isinstance(it.items[0], VConst) and isinstance(it.items[0].obj, tuple) \
+                and it.items[0].obj[:2] == ("iter", "enumerate"):
+            # enumerate(seq[, start]) over a symbolic sequence: pairs (start + k, seq[k])
+            a_, kw_ = it.items[1].items, it.items[2].d
+            start_ = a_[1] if len(a_) > 1 else kw_.get("start", VInt(0))
+            n_, inner = s.seq_view(a_[0], st)
+            return n_, (lambda k: VTuple([VInt(start_.t + k), inner(k)]))
         if isinstance(it, VList):
             return it.n, (lambda k: build(it.ety, [z3.Select(c, k) for c in it.cols]))
         if isinstance(it, VRef) and s.class_info(it.cls).get("seq"):
@@ -1143,6 +1159,37 @@ class Engine:
                 st.env.pop(nm, None)
             else:
                 st.env[nm] = v
+
+    def ev_DictComp(s, n, st, out):
+        """{k: v for ... in <concrete> [for ... in <concrete>]} - unrolled; keys must be concrete strings/ints"""
+        if any(g.ifs for g in n.generators) or len(n.generators) > 2:
+            raise OutOfSubset("dict comprehension shape")
+        from .stmts import _concrete_key
+
+        def go(gi, st0, acc):
+            if gi == len(n.generators):
+                res_ = []
+                for st1, (kv, vv) in s.evs([n.key, n.value], st0, out):
+                    d_ = dict(acc); d_[_concrete_key(kv)] = vv
+                    res_.append((st1, d_))
+                return res_
+            g = n.generators[gi]
+            outs = []
+            for st1, it in s.ev(g.iter, st0, out):
+                if not isinstance(it, (VCList, VTuple)) or (it.items and isinstance(it.items[0], VConst) and isinstance(it.items[0].obj, tuple) and it.items[0].obj[:1] == ("iter",)):
+                    raise OutOfSubset("dict comprehension over a symbolic sequence")
+                cur = [(st1, acc)]
+                for x in it.items:
+                    nxt = []
+                    for st2, a2 in cur:
+                        saved = s.bind_tmp(g.target, x, st2)
+                        for st3, a3 in go(gi + 1, st2, a2):
+                            s.unbind_tmp(saved, st3)
+                            nxt.append((st3, a3))
+                    cur = nxt
+                outs += cur
+            return outs
+        return [(st1, VDict(d_)) for st1, d_ in go(0, st, {})]
 
     def ev_GeneratorExp(s, n, st, out):
         return s.ev_ListComp(n, st, out)
